@@ -32,7 +32,7 @@ ASSUMPTIONS = [
 	"tolerance 1e-9 in log2 units (7e-10 relative in p)",
 	"4-letter alphabet, uniform background 0.25",
 ]
-REQUIRED = {"entries_compared": 1000, "brute_force_crosschecks": 5,
+REQUIRED = {"fimo_hit_pvalues_checked": 50, "entries_compared": 1000, "brute_force_crosschecks": 5,
 	"entries_above_max_checked": 20}
 TECHNIQUE = ("runtime monitoring: exact integer-count reference (and brute "
 	"force for w<=7) compared with every entry of every observed p-value "
@@ -124,7 +124,67 @@ def judge_table(rec, cls, params, smallest, table, isc, desc):
 	return True
 
 
+def case_fimo(cls, params, rec):
+	"""p-value column of fimo(): a call history on the same motif objects
+	with changing eps / bin_size; every reported hit's p-value must be the
+	exact-table entry of its score bin (or a neighbouring bin: the statement
+	does not fix how a real score is mapped to its integer bin)."""
+	import torch
+	from tangermeme.tools import fimo as F
+	r = gen.pyrng("C11fimo", params["pseed"])
+	pwms = {"a": make_pwm(dict(params, w=params["w"], kind="d0.1")),
+		"b": make_pwm(dict(params, w=max(2, params["w"] - 1), kind="d0.5",
+		pseed=params["pseed"] + 1))}
+	tm = {k: torch.from_numpy(v.copy()) for k, v in pwms.items()}
+	seqs = []
+	for i in range(4):
+		s_ = list(gen.rand_seq(r, 40))
+		for name, pw in pwms.items():
+			c = "".join(fr.ALPHA[int(a)] for a in pw.argmax(axis=0))
+			o = r.randint(0, 40 - len(c))
+			s_[o:o + len(c)] = list(c)
+		seqs.append("".join(s_))
+	X = gen.ohe(seqs, dtype=torch.float32)
+	n_hits = 0
+	for step, (eps, b) in enumerate(params["history"]):
+		st, val = gen.call(F.fimo, tm, X, eps=eps, bin_size=b,
+			threshold=params["threshold"], reverse_complement=False)
+		if st == "raise":
+			rec.violation(cls, params, {"what": "fimo raised", "step": step,
+				"error": repr(val)[:300]}, mech="C11/raised")
+			return
+		for mi, (name, pw) in enumerate(pwms.items()):
+			lo = fr.log_odds(pw, eps)
+			isc = fr.int_scores(lo, b)
+			tlo, thi, lt = fr.exact_table(isc)
+			for row in val[mi].to_dict("records"):
+				sc = fr.window_scores(seqs[int(row["sequence_name"])][
+					int(row["start"]):int(row["end"])], lo)[0]
+				q = math.floor(sc / b)
+				allowed = []
+				for k in (q - 1, q, q + 1):
+					allowed.append(0.0 if k <= tlo else -math.inf if k > thi
+						else float(lt[k - tlo]))
+				p = float(row["p-value"])
+				lp = math.log2(p) if p > 0 else -math.inf
+				n_hits += 1
+				rec.count("fimo_hit_pvalues_checked")
+				if not any(a == lp or (a != -math.inf and abs(a - lp) <=
+					1e-9) for a in allowed):
+					rec.violation(cls, params, {"what": "p-value of a fimo "
+						"hit is not the exact tail probability of its score "
+						"bin", "call_in_history": step, "eps": eps,
+						"bin_size": b, "history": params["history"],
+						"motif": name, "score": sc, "reported_p": p,
+						"exact_p_of_neighbouring_bins": [2.0 ** a
+						for a in allowed]}, mech="C11/fimo-p-value")
+					return
+	rec.held(cls, params, nontrivial=n_hits > 0)
+
+
 def run_case(cls, params, rec):
+	if params.get("api") == "fimo":
+		return case_fimo(cls, params, rec)
 	from tangermeme.tools import fimo as F
 	pwm = make_pwm(params)
 	lo_pwm = fr.log_odds(pwm, params["eps"])
@@ -198,6 +258,10 @@ def plan(tier, seed):
 			"seed": seed, "weight": per, "env": env,
 			"api": "all" if (k0 // per) % 8 == 3 else "single",
 			"tier": tier})
+	nf = 4 if tier == "quick" else 40
+	for j in range(nf):
+		units.append({"cls": "fimo", "k0": j * 5, "k1": j * 5 + 5,
+			"seed": seed, "weight": 5, "tier": tier})
 	return units
 
 
@@ -216,6 +280,17 @@ def gen_case(seed, k, tier):
 
 
 def run_unit(unit, rec):
+	if unit["cls"] == "fimo":
+		for k in range(unit["k0"], unit["k1"]):
+			r = gen.pyrng("C11fimo-u", unit["seed"], k)
+			eps = r.sample([1e-4, 1e-3, 1e-2, 0.05, 0.1], 3)
+			bins = [r.choice([0.05, 0.1, 0.25, 0.5]) for _ in range(2)]
+			hist = [[eps[0], bins[0]], [eps[1], bins[0]], [eps[0], bins[0]],
+				[eps[2], bins[1]], [eps[1], bins[1]]]
+			run_case("fimo-pvalues", {"api": "fimo", "w": r.randint(3, 8),
+				"pseed": r.randrange(10 ** 9), "history": hist,
+				"threshold": r.choice([1e-1, 1e-2, 1e-3])}, rec)
+		return
 	if unit.get("env", {}).get("NUMBA_BOUNDSCHECK"):
 		rec.count("boundscheck_units")
 	for k in range(unit["k0"], unit["k1"]):
